@@ -287,6 +287,11 @@ impl ConfigOptions {
                 config.chunk_min_size(),
                 config.chunk_max_size(),
             )?;
+        } else if config.chunk_size() == 0 {
+            return Err(RusticError::new(
+                ErrorKind::Unsupported,
+                "Chunk size must be larger than 0 for the fixed-size chunker.",
+            ));
         }
 
         if let Some(compression) = self.set_compression {
@@ -373,7 +378,9 @@ impl ConfigOptions {
             config.max_packsize_tolerate_percent = Some(percent);
         }
 
-        config.extra_verify = self.set_extra_verify;
+        if let Some(extra_verify) = self.set_extra_verify {
+            config.extra_verify = Some(extra_verify);
+        }
 
         Ok(())
     }
